@@ -311,18 +311,44 @@ def run_property(pid, modname, tier, seed, level, rule, assumptions, procs=16, o
     if len(jobs) == 1 or procs == 1:
         outs = [_job(j) for j in jobs]
     else:
+        # A worker that dies (or a library call that never returns) must not hang the check:
+        # dead workers surface as BrokenProcessPool, a global time limit as a harness error (exit 2,
+        # "inconclusive") - never as a violation.
+        import concurrent.futures as cf
+
+        limit = float(os.environ.get("VK_TIMEOUT", "300" if tier == "quick" else "5400"))
         ctx = mp.get_context("fork")
-        with ctx.Pool(min(procs, len(jobs))) as pool:
-            outs = pool.map(_job, jobs, chunksize=1)
+        ex = cf.ProcessPoolExecutor(max_workers=min(procs, len(jobs)), mp_context=ctx)
+        futs = [ex.submit(_job, j) for j in jobs]
+        outs = []
+        deadline = time.time() + limit
+        try:
+            for j, f in zip(jobs, futs):
+                try:
+                    outs.append(f.result(timeout=max(1.0, deadline - time.time())))
+                except cf.TimeoutError:
+                    outs.append(("harness", f"TIMEOUT: facet {j[2]} shard {j[5]} did not finish within {limit:.0f}s (inconclusive, not a violation)"))
+                except Exception as e:  # noqa: BLE001 - BrokenProcessPool etc.
+                    outs.append(("harness", f"worker for facet {j[2]} shard {j[5]} died: {type(e).__name__}: {e}"))
+        finally:
+            for p_ in list(getattr(ex, "_processes", {}).values()):
+                try:
+                    p_.kill()
+                except Exception:  # noqa: BLE001
+                    pass
+            ex.shutdown(wait=False, cancel_futures=True)
     for j, (status, payload) in zip(jobs, outs):
         if status == "ok":
             results[j[2]].append(payload)
         else:
             harness_errors.append(payload)
+    timeouts = [h for h in harness_errors if h.startswith("TIMEOUT")]
     if harness_errors:
         for h in harness_errors:
             print("HARNESS-ERROR:", h, file=sys.stderr)
-        return 2
+        # shards that timed out are inconclusive; what the other shards found is still reported
+        if len(timeouts) != len(harness_errors) or not any(results.values()):
+            return 2
 
     merged = {name: Stats.merge(ds) for name, ds in results.items() if ds}
     known = Known(pid)
@@ -410,6 +436,8 @@ def run_property(pid, modname, tier, seed, level, rule, assumptions, procs=16, o
     os.makedirs(os.path.join(VERIF_DIR, "evidence"), exist_ok=True)
     with open(os.path.join(VERIF_DIR, "evidence", f"{pid}.json"), "w") as f:
         json.dump(ev, f, indent=1, sort_keys=False)
+    if timeouts and exit_code == 0:
+        exit_code = 2
     print(
         f"{pid} {tier} seed={seed}: cases={total_cases} nontrivial={len(nontriv)} "
         f"known={sum(sum(m.known_hits.values()) for m in merged.values())} violations={len(seen_buckets)} wall={ev['wall_s']}s",
